@@ -384,7 +384,7 @@ func checkC15(tier string) {
 		r.Violate("worker-died:"+co.Death, mon.PanicExcerpt(co.Tail, 12), map[string]interface{}{"history": i})
 		return true
 	}
-	n := r.Pick(3000, 120000)
+	n := r.Pick(3000, 60000)
 	r.RunBatch(mon.Batch{Worker: "c15", N: n, Chunk: (n + 15) / 16, Parallel: 16, Params: c15Params{}, Timeout: 40 * time.Minute, MemKB: 8 << 20, OnDeath: onDeath})
 	nc := r.Pick(160, 4000)
 	r.RunBatch(mon.Batch{Worker: "c15", Tag: "conc", N: nc, Chunk: (nc + 7) / 8, Parallel: 8, Params: c15Params{Concurrent: true}, Timeout: 40 * time.Minute, MemKB: 8 << 20, OnDeath: onDeath})
